@@ -3,6 +3,7 @@ import ProductMD.Model.TreeInfoText
 import ProductMD.Proofs.C05Images
 import ProductMD.Proofs.C05Rpms
 import ProductMD.Proofs.C05CI
+import ProductMD.Proofs.C05CIDownEx
 import ProductMD.Proofs.C05TreeInfo
 import ProductMD.Proofs.C05TreeInfoIdem
 import ProductMD.Proofs.C05WitnessTI
@@ -333,8 +334,8 @@ theorem C05_ci_faithful_tops (keys cs : List Str)
 down-conversion, the legacy reader (gate `< (1, 0)`) looks its children up under exactly the keys, in exactly the order, the
 current reader uses for the entry with the list — given a table in sorted key order (what `sort_keys=True` writes), every
 listed child present, and nothing else under the prefix `uid-`.  The last condition is what fails from depth 3 on (a
-grandchild `uid-c-g` also starts with `uid-`): F32, `C05_ci_legacy_depth3_refused_witness`.  Not proved: the assembly of
-these two facts through `buildL` into `deserialize (down d) = deserialize d` for depth ≤ 2 (validated per case). -/
+grandchild `uid-c-g` also starts with `uid-`): F32, `C05_ci_legacy_depth3_refused_witness`.  The assembly of these two facts
+through `buildL` into the whole reader is `C05_ci_faithful_down`. -/
 theorem C05_ci_faithful_children (g : Legacy.Gates) (hg : g.variant = true) (full data data' : PyVal) (vuid : Str) (ids : List Str)
     (hd : data.get? k%"variants" = some (strList ids)) (hd' : data'.get? k%"variants" = none)
     (hs : SSorted full.keys)
@@ -358,6 +359,106 @@ example :
   · intro k hk
     simp only [List.mem_cons, List.not_mem_nil, or_false] at hk
     rcases hk with rfl | rfl | rfl | rfl <;> decide
+
+/-! ### the general down-conversion theorem
+
+`CI.down vs ver keep ci` (Model/ComposeInfoDown.lean) is the document a writer of format `ver` would have written for `ci`, from
+the format documentation; `CI.expected ver keep ci` is the documented result of loading it: the normal form of `ci` (what the
+current format gives back, C01) with exactly the stated losses — release / base-product / per-variant release `type` → "ga"
+below 1.1, `internal` → False where the format has no such field (always in a `product` section).  Both are compared with the
+harness's spec-side `legacy.ci_down` / `ci_expect` on every generated case (driver ops `c05_ci_down`, `c05_ci_expected`). -/
+
+/--
+**faithful, every version, every forest in the domain.**  For every description `ci` keyed the way `add()` keys it, every
+version `ver` whose text `vs` the header accepts (`hval`, `hvt`: facts about the text alone) and every choice of the optional
+`internal`: the legacy-aware reader loads the format-`ver` document of `ci` as exactly `expected ver keep ci` — every section,
+every variant at any depth with fields, arches, paths, release and children.  Side conditions, both exact and decidable:
+
+* `hid` (only below 0.3, where the compose section has no `date` / `respin`): the id decoder finds the description's own date,
+  type and respin in its id (`IdDerivable`; necessity: `exDown_id_needed`, and F10 / F24 are ids where it does not);
+* `hdom` (only below 1.0, where children are related by UID prefix only), on the uid-keyed table `d` the writer builds:
+  `KidsExact d` — nothing but the listed children of an entry lies under its prefix `uid-` — and `TopsExact d` — a key is
+  somebody's child exactly when the part before its last dash is a key.  Every forest of depth ≤ 2 whose top-level UIDs are not
+  dash-extensions of one another satisfies it; no forest of depth 3 does (a grandchild `uid-c-g` lies under `uid-`): F32,
+  `C05_ci_down_domain_needed`.  From 1.0 on there is no condition (`C05_ci_faithful_down_from_1_0`).
+-/
+theorem C05_ci_faithful_down (vs : Str) (ver : Nat × Nat) (keep : Bool) (ci : ComposeInfo) (j : PyVal)
+    (hdown : down vs ver keep ci = .ok j) (hk : WellKeyed ci)
+    (hval : validateClass "common.Header" (headerObj (.str vs)) = .ok ()) (hvt : versionTuple vs = .ok ver)
+    (hid : vLe (0, 3) ver = false → IdDerivable ci.compose)
+    (hdom : LegacyDomain ver ci) :
+    Legacy.deserialize j = .ok (expected ver keep ci) :=
+  deserialize_down vs ver keep ci j hdown hk (headerOK_of vs ver keep hval hvt) hid hdom
+
+/-- from 1.0 on (explicit child lists, full compose section): no side condition, any depth, any UIDs -/
+theorem C05_ci_faithful_down_from_1_0 (vs : Str) (ver : Nat × Nat) (keep : Bool) (ci : ComposeInfo) (j : PyVal)
+    (h10 : vLe (1, 0) ver = true)
+    (hdown : down vs ver keep ci = .ok j) (hk : WellKeyed ci)
+    (hval : validateClass "common.Header" (headerObj (.str vs)) = .ok ()) (hvt : versionTuple vs = .ok ver) :
+    Legacy.deserialize j = .ok (expected ver keep ci) :=
+  C05_ci_faithful_down vs ver keep ci j hdown hk hval hvt
+    (fun h => by rw [vLe_0_3_of_1_0 ver h10] at h; cases h) (legacyDomain_from_1_0 ver ci h10)
+
+/-- a format that has every field (≥ 1.1 and `internal` written: any ≥ 1.2, or a 1.1 writer that already knew it) loses
+nothing: the result is the normal form itself, i.e. what the current format reads back (C01_readback) -/
+theorem C05_ci_faithful_down_lossless (ver : Nat × Nat) (keep : Bool) (ci : ComposeInfo)
+    (h11 : vLe (1, 1) ver = true) (hi : keep = true ∨ vLe (1, 2) ver = true) :
+    expected ver keep ci = ci.norm :=
+  expected_lossless ver keep ci (lossless_of ver keep h11 hi)
+
+/-- **then idempotent**: the object loaded from the format-`ver` document, once the current writer has written it as `j'`
+(a current-version document), is re-read by the current reader as its normal form, and writing that again gives `j'`;
+through the text with the modelled `json.loads` as well (C01_bytes_parsed; `hnum`: `int()` accepts the respin's digits) -/
+theorem C05_ci_down_then_idempotent (lim : Nat) (vs : Str) (ver : Nat × Nat) (keep : Bool) (ci : ComposeInfo) (j j' : PyVal) (t : Str)
+    (hdown : down vs ver keep ci = .ok j) (hk : WellKeyed ci)
+    (hval : validateClass "common.Header" (headerObj (.str vs)) = .ok ()) (hvt : versionTuple vs = .ok ver)
+    (hid : vLe (0, 3) ver = false → IdDerivable ci.compose) (hdom : LegacyDomain ver ci)
+    (hs : serialize (expected ver keep ci) = .ok j')
+    (hnum : JsonParse.intFits lim ci.compose.respin = true) (hd : dumps (expected ver keep ci) = .ok t) :
+    CI.deserialize j' = .ok (expected ver keep ci).norm ∧ serialize (expected ver keep ci).norm = .ok j'
+    ∧ reloadDump (JsonParse.parseWith lim) t = .ok t := by
+  have h := C05_ci_faithful_down vs ver keep ci j hdown hk hval hvt hid hdom
+  have hi := C05_ci_idempotent j j' _ h hs
+  have hkx := Legacy.deserialize_wellKeyed j _ h
+  have hr : (expected ver keep ci).compose.respin = ci.compose.respin := (C01_norm_sections ci).2.2.2.1
+  exact ⟨hi.1, hi.2.2, C01_bytes_parsed lim _ t hkx (by rw [hr]; exact hnum) hd⟩
+
+/-- the theorems are not vacuous: on `exDown` (depth 2, layered release with base product, label, dashed top-level UID, a
+layered-product child with its own release) every hypothesis holds at 0.2 (every loss at once) and at 0.9, the documents
+exist, and the object loaded at 0.2 is the stated one (`exDown_expected_0_2`: both release types and the base product's are
+"ga", every `internal` False, nothing else differs from the normal form) -/
+theorem C05_ci_down_nonvacuous :
+    (∃ j, down k%"0.2" (0, 2) false exDown = .ok j ∧ Legacy.deserialize j = .ok (expected (0, 2) false exDown))
+    ∧ (∃ j, down k%"0.9" (0, 9) false exDown = .ok j ∧ Legacy.deserialize j = .ok (expected (0, 9) false exDown))
+    ∧ (∃ j, down k%"1.1" (1, 1) true exDown = .ok j ∧ Legacy.deserialize j = .ok exDown.norm) := by
+  obtain ⟨hk, hd2, hd9, ho2, ho9, ho11⟩ := exDown_hyps
+  refine ⟨?_, ?_, ?_⟩
+  · cases hj : down k%"0.2" (0, 2) false exDown with
+    | error e => rw [hj] at ho2; cases ho2
+    | ok j => exact ⟨j, rfl, C05_ci_faithful_down _ _ _ _ j hj hk (by decide +kernel) (by decide +kernel) (fun _ => exDown_idDerivable) hd2⟩
+  · cases hj : down k%"0.9" (0, 9) false exDown with
+    | error e => rw [hj] at ho9; cases ho9
+    | ok j => exact ⟨j, rfl, C05_ci_faithful_down _ _ _ _ j hj hk (by decide +kernel) (by decide +kernel) (fun h => by cases h) hd9⟩
+  · cases hj : down k%"1.1" (1, 1) true exDown with
+    | error e => rw [hj] at ho11; cases ho11
+    | ok j =>
+      refine ⟨j, rfl, ?_⟩
+      rw [← C05_ci_faithful_down_lossless (1, 1) true exDown rfl (Or.inl rfl)]
+      exact C05_ci_faithful_down_from_1_0 _ _ _ _ j rfl hj hk (by decide +kernel) (by decide +kernel)
+
+/-- **the domain is needed (F32)**: the three-level description `A` → `A-B` → `A-B-C` is well keyed, outside `LegacyDomain`
+at 0.9, its 0.9 document exists and the reader refuses it (ValueError); and below 0.3 a date that is not the id's is not
+recovered (`IdDerivable`) -/
+theorem C05_ci_down_domain_needed :
+    (WellKeyed exDeep ∧ ¬ LegacyDomain (0, 9) exDeep
+     ∧ (match down k%"0.9" (0, 9) false exDeep with
+        | .ok j => (match Legacy.deserialize j with | .error .valueError => true | _ => false)
+        | .error _ => false) = true)
+    ∧ (let ci := { exDown with compose := { exDown.compose with date := k%"20150521" } }
+       (match down k%"0.2" (0, 2) false ci with
+        | .ok j => (match Legacy.deserialize j with | .ok x => x.compose.date == k%"20150522" | .error _ => false)
+        | .error _ => false) = true) :=
+  ⟨exDeep_outside, exDown_id_needed⟩
 
 /-- a 0.2 document: no date/respin, `product` section without type/internal, children by UID prefix only, a layered
 product with its own `product` section -/
